@@ -33,12 +33,12 @@ theorem code_unknownEcall (r : Range) (f : FileId) (t : String) :
 
 theorem saveToZero_reported (g : Cfg) (i : Nat) (hi : i < g.nodes.size) (rd : W Reg)
     (hw : (g.get i).node.writesTo = some rd) (h0 : rd.val = 0)
-    (hs : (g.get i).node.canSkipSaveChecks = false) :
+    (hs : (g.get i).node.canSkipSaveChecks = false) (hn : (g.get i).node.isNop = false) :
     ∃ d ∈ lintSaveToZero g, d.code = "save-to-zero" ∧ d.range = rd.tok.range ∧ d.file = rd.tok.file := by
   refine ⟨onReg "SaveToZero" rd, ?_, code_saveToZero _ _ _, rfl, rfl⟩
   unfold lintSaveToZero
   rw [List.mem_filterMap]
-  exact ⟨g.get i, get_mem_toList g i hi, by simp [hw, h0, hs]⟩
+  exact ⟨g.get i, get_mem_toList g i hi, by simp [hw, h0, hs, hn]⟩
 
 theorem invalidSegment_reported (g : Cfg) (i : Nat) (hi : i < g.nodes.size)
     (hinst : (g.get i).node.isInstruction = true) (hseg : (g.get i).isText = false) :
